@@ -8,5 +8,15 @@ CHECKS = {
  'C02': {'level': 'exploration', 'technique': LAT,
          'text': 'tensordot is executed at every point of (order pair x 4 modes x every num_axes x site-type patterns x all internal rank vectors x outer ranks x dtype pairs x overwrite) and compared with numpy.tensordot on the einsum-contracted operands including the documented mode ordering; rank_tensordot, concatenate, rank_transpose, diag (all site subsets), squeeze (all placements of 1x1 modes), tt2qtt (all ordered factorisations), qtt2tt (all compositions), the split/merge round trip and build_core(_vector) (all zero placements x complex patterns) likewise.',
          'note': 'bounds: orders <= 3 (4), site types over {1,2}(3), ranks <= 2 (3), mode sizes for QTT in {1,2,3,4,6}; values from seeded gaussian family; the undocumented orientation of the complete-both contraction is taken from the library.'},
+
+ 'C03': {'level': 'exploration', 'technique': LAT,
+         'text': 'Every full sweep and every admissible (start_index,end_index) pair of ortho_left/ortho_right plus ortho() is executed at every point of order x dims x rank vector (incl. over-parameterised) x dtype x family (generic, rank-deficient cores, integers); after each call the dense value, the isometry of every processed core, rank monotonicity, bit-identity of untouched cores, metadata consistency and the return identity are checked.',
+         'note': 'bounds: order <= 3 (4), mode sizes <= 2 (3), ranks in {1,2,3,5}; threshold 0 / unbounded rank; values from seeded families.'},
+ 'C04': {'level': 'exploration', 'technique': LAT,
+         'text': 'Every truncation setting (int caps 1..4, every per-bond cap list over {1,2,3,inf}, six thresholds and their combinations) is run through every entry point on every tensor layout x spectrum family x dtype; rank caps, the TT-SVD quasi-optimality bound computed from the singular values of the dense unfoldings, the relative-threshold bound with the oracle-counted number of discarded directions and exactness at threshold 0 are asserted.',
+         'note': 'bounds: order 2-3 (4), mode sizes {2,3} with operator layouts; spectra from four constructed families; for one-sided sweeps on a non-orthonormal input only the rank cap is a theorem and only it is asserted.'},
+ 'C05': {'level': 'exploration', 'technique': LAT,
+         'text': 'svd and pinv are executed for every split index at every point of order x row dims x rank vector x dtype x family (generic, rank-deficient unfoldings, integers) x ortho flags x overwrite x threshold x max_rank and compared with numpy.linalg.svd/pinv of the unfolding: orthonormal factors, singular values, reconstruction, conjugate-transposed pseudoinverse, input bit-identity iff overwrite=False.',
+         'note': 'bounds: order 2-3 (4), row sizes <= 3, ranks <= 3; thresholds in a spectral gap (D7); pinv on rank-deficient unfoldings only with threshold > 0.'},
 }
 NOT_APPLICABLE = {}
